@@ -378,8 +378,9 @@ def _whole_row_fill(w, fi) -> None:
     broadcasting - outside the scalar fragment these rules read (exit 2, not a finding)."""
     from ..ir import subterms
     for e in w.events:
-        whole = e.kind == "store" and e.target[0] == "idx" and e.target[2][0] == "slice" and e.value is not None and any(
-            t[0] == "listcomp" for t in subterms(e.value))
+        whole = e.kind == "store" and e.target[0] == "idx" and e.target[2][0] == "slice" and e.value is not None and (
+            any(t[0] == "listcomp" for t in subterms(e.value))
+            or (e.target[1][0] == "alloc" and str(e.target[1][1]).startswith("numpy.")))  # a block of rows placed at once
         nested = e.value is not None and any(
             t[0] in ("alloc", "call") and str(t[1]).endswith(("numpy.array", "numpy.asarray", "numpy.array')")) and t[2]
             and t[2][0][0] == "listcomp" and t[2][0][1][0] == "listcomp" for t in subterms(e.value))
@@ -450,6 +451,8 @@ def check_builders(chk, rep, repo):
         sv = [c for c in w.events if c.kind == "call" and c.name == "numpy.savetxt"]
         rep.fn("BUILD-saved", fi, "the matrix that was filled is the one written", len(sv) == 1 and sv[0].args[1:2] == (arr,)
                and sv[0].args[:1] == (("param", "output"),), "np.savetxt(output, <the filled matrix>) expected")
+    if not ok:
+        _whole_row_fill(w, fi)  # (assembled from blocks / rows: exit 2 rather than a finding)
     rep.fn("BUILD-file", fi, "pre_compute_distance fills [i][j] with the metric of rows (i, j)", ok, detail)
     # get_distances
     w = _row_fill_view(model_walk(repo, "OPF", "get_distances"))
